@@ -15,10 +15,11 @@
 (***************************************************************************)
 EXTENDS Core
 
-SEvTypes == <<"SOrd", "SInd", "SMap", "STrig">>      \* registration order = channel order
-CEvTypes == <<"COrd", "CMap", "CTrig">>
-SEvSet == {"SOrd", "SInd", "SMap", "STrig"}
-CEvSet == {"COrd", "CMap", "CTrig"}
+SEvTypes == <<"SOrd", "SInd", "SMap", "STrig", "SUnr">>      \* registration order = channel order
+CEvTypes == <<"COrd", "CMap", "CTrig", "CUnr">>
+SEvSet == {"SOrd", "SInd", "SMap", "STrig", "SUnr"}
+CEvSet == {"COrd", "CMap", "CTrig", "CUnr"}
+Unreliable(t) == t \in {"SUnr", "CUnr"}                 \* unreliable channel: loss and reordering
 Independent(t) == t = "SInd"
 Mapped(t) == t \in {"SMap", "STrig", "CMap", "CTrig"}    \* carries an entity reference (when e # None)
 
@@ -157,9 +158,14 @@ CliFrameEv(st, c) ==
 ----------------------------------------------------------------------------
 DeliverEvSF(st, c, t, i) ==
     [st EXCEPT !.ev.net[c].sev[t] = RemoveAt(@, i), !.ev.net[c].rxSev[t] = Append(@, st.ev.net[c].sev[t][i])]
-DeliverEvSEnabled(st, c, t, i) == i \in 1..Len(st.ev.net[c].sev[t]) /\ st.cli[c].status = "Connected"
+\* an ordered reliable channel hands over its head; an unreliable one any message, and may lose any
+DeliverEvSEnabled(st, c, t, i) == i \in 1..Len(st.ev.net[c].sev[t]) /\ st.cli[c].status = "Connected" /\ (Unreliable(t) \/ i = 1)
+DropEvSF(st, c, t, i) == [st EXCEPT !.ev.net[c].sev[t] = RemoveAt(@, i)]
+DropEvSEnabled(st, c, t, i) == i \in 1..Len(st.ev.net[c].sev[t]) /\ Unreliable(t)
+DropEvCF(st, c, t, i) == [st EXCEPT !.ev.net[c].cev[t] = RemoveAt(@, i)]
+DropEvCEnabled(st, c, t, i) == i \in 1..Len(st.ev.net[c].cev[t]) /\ Unreliable(t)
 DeliverEvCF(st, c, t, i) ==
     [st EXCEPT !.ev.net[c].cev[t] = RemoveAt(@, i), !.ev.net[c].srxCev[t] = Append(@, st.ev.net[c].cev[t][i])]
-DeliverEvCEnabled(st, c, t, i) == i \in 1..Len(st.ev.net[c].cev[t]) /\ st.srv.cl[c].conn /\ st.srv.running
+DeliverEvCEnabled(st, c, t, i) == i \in 1..Len(st.ev.net[c].cev[t]) /\ st.srv.cl[c].conn /\ st.srv.running /\ (Unreliable(t) \/ i = 1)
 
 =============================================================================
